@@ -5,7 +5,7 @@ from ..harness import scn, gen, obs as O, pyeval
 from . import base_scn
 
 pid = 'C03'
-gen_modules = ['tr_state', 'tr_validators', 'tr_has_patcher', 'tr_contracts', 'tr_decorators', 'tr_pin_contracts', 'tr_rest_validators', 'tr_rest_patcher', 'tr_rest_state', 'tr_rest_lintcontract']
+gen_modules = ['tr_state', 'tr_validators', 'tr_has_patcher', 'tr_contracts', 'tr_decorators', 'tr_pin_contracts', 'tr_rest_validators', 'tr_rest_patcher', 'tr_rest_state', 'tr_rest_lintcontract', 'tr_rest_contractsconst']
 model_targets = ['Sem/Scenario.v']
 hand_modelled = ['coq/Py/Sig.v', 'coq/Sem/Model.v', 'coq/Core/Base.v: classes carry their MRO (computed by CPython for every scenario class)']
 explanation = ('Theorems about the except-block of the generated wrappers for arbitrary class tables; correspondence + monitor over random '
